@@ -19,6 +19,21 @@
 //! (`snapshot::save_v3_uncompressed`), quantising file (`save_snapshot_compressed`).
 //! Crash pre-states are built from real `save` output; the temp sibling is `path.with_extension("tmp")`
 //! as in `save_v3_with_compression` / `save_snapshot_compressed`.
+//!
+//! C07.save.error_propagates: a complete snapshot S_old is at `path`; the writer's temp sibling
+//! (`path.with_extension("tmp")`) is made a symlink to /dev/full, so that every write of the next save
+//! fails with ENOSPC (checked by the harness first); saving a DIFFERENT store to `path` must return Err and
+//! `path` must still be a regular file that loads as exactly S_old (no old file: `path` must not appear).
+//! `path` is never loaded if it is not a regular file (a renamed symlink to /dev/full reads zeros forever).
+//!
+//! C07.roundtrip.resnapshot: populate, snapshot once (discarded; files: written to the same path), then
+//! overwrite the same keys in place with different values (other kind / other length / other embedding
+//! class: 384-dim slab embedding ramp <-> exact half-zero, 4..8-dim `_embedding` / `vector` under emb:* keys,
+//! dimension changes in both directions), delete keys (one plain, one emb:* with a slab slot) and insert new
+//! ones (the new emb:* key re-uses the freed slab slot), optionally add a table row; snapshot AGAIN and load:
+//! the loaded view must equal the CURRENT view under the same rules as C07.roundtrip.*.  Contents stay
+//! outside the known-finding classes (no components below 1e-6 in slab embeddings, smooth 384-dim vectors,
+//! no Bytes / tables in the quantising format, no graph / blob data).  Router level: slab dimension 4 / 8.
 use crate::fw::{tmpdir, Report, Rng, Tier};
 use serde_json::{json, Value};
 use std::collections::{BTreeMap, HashMap};
@@ -36,6 +51,8 @@ const OB_QUANT_SLABS: &str = "C07.roundtrip.quantised.slabs";
 const OB_THRESH: &str = "C07.embedding.threshold";
 const OB_ATOMIC: &str = "C07.load.atomic";
 const OB_TRUNC: &str = "C07.load.atomic.truncated";
+const OB_SAVE_ERR: &str = "C07.save.error_propagates";
+const OB_RESNAP: &str = "C07.roundtrip.resnapshot";
 
 const THRESHOLD: usize = 256; // TT_MIN_DIMENSION
 const TOLERANCE: f64 = 0.01; // "<1% error"
@@ -86,6 +103,12 @@ fn val(name: &str) -> TensorValue {
         "sparse_tiny" => V::Sparse(SparseVector::from_dense(&[0.0, 1e-20, 0.0, 0.0, 1e-7, 0.0])),
         "ptr" => V::Pointer("node:1".into()),
         "ptrs" => V::Pointers(vec!["a".into(), String::new(), "\u{e9}".into()]),
+        // beyond the catalogue (resnapshot contents)
+        "vec_small8" => V::Vector(vec![0.0, 0.0, 0.0, 1.0, 2.0, 3.0, -4.0, 0.5]),
+        "vec_small4b" => V::Vector(vec![0.25, 2.0, -1.0, 8.0]),
+        "vec_ramp384" => V::Vector(emb384(1)),
+        "vec_ramp384b" => V::Vector(emb384(5)),
+        "vec_half384" => V::Vector(emb384(2)),
         _ => V::Pointers(vec![]),
     }
 }
@@ -100,7 +123,7 @@ struct Content {
     table: bool,   // relational slab: table "t", 6 column types, 2 rows
     graph: bool,   // graph tensor: 2 entity nodes, 1 edge with data
     blob: bool,    // blob log: 2 chunks
-    emb: u8,       // 384-dim `_embedding` under an emb: key (lands in the embedding slab): 1 ramp, 2 half-zero, 3 half-zero + 1e-7, 4 pseudo-random
+    emb: u8,       // 384-dim `_embedding` under an emb: key (lands in the embedding slab): 1 ramp, 2 half-zero, 3 half-zero + 1e-7, 4 pseudo-random, 5 falling ramp
     engines: bool, // 1 table / 2 rows, 2 nodes / 1 edge, 1 embedding written through the three engines
 }
 
@@ -128,6 +151,7 @@ fn emb384(kind: u8) -> Vec<f32> {
         1 => (0..384).map(|i| 1.0 + (i as f32) * 0.001).collect(),
         2 => (0..384).map(|i| if i % 2 == 0 { 0.0 } else { 1.0 + (i as f32) / 384.0 }).collect(),
         3 => (0..384).map(|i| if i == 0 { 1e-7 } else if i % 2 == 0 { 0.0 } else { 1.0 + (i as f32) / 384.0 }).collect(),
+        5 => (0..384).map(|i| 2.0 - (i as f32) * 0.002).collect(),
         _ => { let mut s = 12345u32; (0..384).map(|_| { s = s.wrapping_mul(1_664_525).wrapping_add(1_013_904_223); ((s >> 8) as f32) / 8_388_608.0 - 1.0 }).collect() },
     }
 }
@@ -338,17 +362,19 @@ fn verdict(d: Vec<String>) -> Result<(), String> {
 // ---------------------------------------------------------------- round trips
 
 #[derive(Clone, Copy, PartialEq, Debug)]
-enum Fmt { BytesStore, BytesRouter, FileZstd, FileRaw, Quantised }
+enum Fmt { BytesStore, BytesRouter, FileZstd, FileRaw, Quantised, /** SlabRouter::save_to_file / load_from_file (new obligations only) */ RouterFile }
 const FMTS: [Fmt; 5] = [Fmt::BytesStore, Fmt::BytesRouter, Fmt::FileZstd, Fmt::FileRaw, Fmt::Quantised];
+const ALL_FMTS: [Fmt; 6] = [Fmt::BytesStore, Fmt::BytesRouter, Fmt::FileZstd, Fmt::FileRaw, Fmt::Quantised, Fmt::RouterFile];
+const FILE_FMTS: [Fmt; 4] = [Fmt::FileZstd, Fmt::FileRaw, Fmt::Quantised, Fmt::RouterFile];
 impl Fmt {
-    fn name(self) -> &'static str { match self { Fmt::BytesStore => "bytes_store", Fmt::BytesRouter => "bytes_router", Fmt::FileZstd => "file_zstd", Fmt::FileRaw => "file_raw", Fmt::Quantised => "quantised" } }
-    fn parse(s: &str) -> Fmt { FMTS.into_iter().find(|f| f.name() == s).unwrap_or(Fmt::FileZstd) }
+    fn name(self) -> &'static str { match self { Fmt::BytesStore => "bytes_store", Fmt::BytesRouter => "bytes_router", Fmt::FileZstd => "file_zstd", Fmt::FileRaw => "file_raw", Fmt::Quantised => "quantised", Fmt::RouterFile => "router_file" } }
+    fn parse(s: &str) -> Fmt { ALL_FMTS.into_iter().find(|f| f.name() == s).unwrap_or(Fmt::FileZstd) }
     fn ob(self, c: &Content) -> &'static str {
         // a store holding nothing but one slab embedding decides the embedding clause of the property
         let pure_emb = c.emb > 0 && c.entries.is_empty() && !c.beyond_kv();
         match self {
             Fmt::BytesStore | Fmt::BytesRouter => if c.direct_slabs() { OB_BYTES_SLABS } else if pure_emb { OB_THRESH } else { OB_BYTES },
-            Fmt::FileZstd | Fmt::FileRaw => if c.direct_slabs() { OB_FILE_SLABS } else if pure_emb { OB_THRESH } else { OB_FILE },
+            Fmt::FileZstd | Fmt::FileRaw | Fmt::RouterFile => if c.direct_slabs() { OB_FILE_SLABS } else if pure_emb { OB_THRESH } else { OB_FILE },
             Fmt::Quantised => if c.beyond_kv() { OB_QUANT_SLABS } else { OB_QUANT },
         }
     }
@@ -362,14 +388,22 @@ fn save_file(s: &TensorStore, fmt: Fmt, path: &Path) -> Result<(), String> {
     guard("save", || match fmt {
         Fmt::FileRaw => tensor_store::snapshot::save_v3_uncompressed(s.router(), path).map_err(|e| format!("save_v3_uncompressed = Err({e})")),
         Fmt::Quantised => s.save_snapshot_compressed(path, tensor_compress::CompressionConfig::default()).map_err(|e| format!("save_snapshot_compressed = Err({e})")),
+        Fmt::RouterFile => s.router().save_to_file(path).map_err(|e| format!("SlabRouter::save_to_file = Err({e})")),
         _ => s.save_snapshot(path).map_err(|e| format!("save_snapshot = Err({e})")),
     })
 }
 
-fn load_file(fmt: Fmt, path: &Path) -> Result<TensorStore, String> {
+enum Loaded { Store(TensorStore), Router(SlabRouter) }
+impl Loaded {
+    fn router(&self) -> &SlabRouter { match self { Loaded::Store(s) => s.router(), Loaded::Router(r) => r } }
+    fn store(&self) -> Option<&TensorStore> { match self { Loaded::Store(s) => Some(s), Loaded::Router(_) => None } }
+}
+
+fn load_file(fmt: Fmt, path: &Path) -> Result<Loaded, String> {
     guard("load", || match fmt {
-        Fmt::Quantised => TensorStore::load_snapshot_compressed(path).map_err(|e| format!("load_snapshot_compressed = Err({e})")),
-        _ => TensorStore::load_snapshot(path).map_err(|e| format!("load_snapshot = Err({e})")),
+        Fmt::Quantised => TensorStore::load_snapshot_compressed(path).map(Loaded::Store).map_err(|e| format!("load_snapshot_compressed = Err({e})")),
+        Fmt::RouterFile => SlabRouter::load_from_file(path).map(Loaded::Router).map_err(|e| format!("SlabRouter::load_from_file = Err({e})")),
+        _ => TensorStore::load_snapshot(path).map(Loaded::Store).map_err(|e| format!("load_snapshot = Err({e})")),
     })
 }
 
@@ -395,7 +429,7 @@ fn roundtrip(c: &Content, fmt: Fmt, dir: &Path) -> Result<(), String> {
             save_file(&s, fmt, &path)?;
             if path.with_extension("tmp").exists() { return Err("temp sibling left behind after save".into()); }
             let l = load_file(fmt, &path)?;
-            verdict(diff(&orig, &view(l.router(), Some(&l), c), fmt == Fmt::Quantised))
+            verdict(diff(&orig, &view(l.router(), l.store(), c), fmt == Fmt::Quantised))
         },
     }
 }
@@ -438,7 +472,7 @@ fn images(old: &Content, new: &Content, fmt: Fmt, dir: &Path) -> Result<Images, 
         save_file(&s, fmt, &p)?;
         let bytes = std::fs::read(&p).map_err(|e| e.to_string())?;
         let l = load_file(fmt, &p).map_err(|e| format!("complete file does not load: {e}"))?;
-        out.push((bytes, view(l.router(), Some(&l), c)));
+        out.push((bytes, view(l.router(), l.store(), c)));
     }
     let (nb, nv) = out.pop().unwrap_or_default();
     let (ob, ov) = out.pop().unwrap_or_default();
@@ -447,7 +481,7 @@ fn images(old: &Content, new: &Content, fmt: Fmt, dir: &Path) -> Result<Images, 
 
 fn loaded_view(fmt: Fmt, path: &Path, c: &Content) -> Result<View, String> {
     let l = load_file(fmt, path)?;
-    Ok(view(l.router(), Some(&l), c))
+    Ok(view(l.router(), l.store(), c))
 }
 
 /// state in {"tmp_partial", "renamed", "save_over_tmp", "truncated"}
@@ -491,10 +525,186 @@ fn atomic_case(im: &Images, old: &Content, new: &Content, fmt: Fmt, state: &str,
             match load_file(fmt, &path) {
                 Err(e) if e.contains("panicked") => Err(format!("file cut at {cut}/{}: {e}", im.old_bytes.len())),
                 Err(_) => Ok(()),
-                Ok(l) => Err(format!("file cut at {cut}/{} loads as a store with {} key(s) instead of an error", im.old_bytes.len(), l.scan("").len())),
+                Ok(l) => Err(format!("file cut at {cut}/{} loads as a store with {} key(s) instead of an error", im.old_bytes.len(), l.router().scan("").len())),
             }
         },
     }
+}
+
+// ---------------------------------------------------------------- failing save (ENOSPC on the temp sibling)
+
+/// `old` = None: no previous file.  The temp sibling of `path` is a symlink to /dev/full during the save.
+fn save_error_case(old: Option<&Content>, new: &Content, fmt: Fmt, dir: &Path) -> Result<(), String> {
+    use std::io::Write;
+    let path = dir.join("full.snap");
+    let tmp = path.with_extension("tmp");
+    let _ = std::fs::remove_file(&path);
+    let _ = std::fs::remove_file(&tmp);
+    let mut old_view = None;
+    if let Some(oc) = old {
+        let s_old = TensorStore::new();
+        populate(s_old.router(), Some(&s_old), oc).map_err(|e| format!("populate: {e}"))?;
+        save_file(&s_old, fmt, &path).map_err(|e| format!("harness: saving S_old: {e}"))?;
+        old_view = Some(loaded_view(fmt, &path, oc).map_err(|e| format!("harness: S_old does not load: {e}"))?);
+    }
+    let s_new = TensorStore::new();
+    populate(s_new.router(), Some(&s_new), new).map_err(|e| format!("populate: {e}"))?;
+    std::os::unix::fs::symlink("/dev/full", &tmp).map_err(|e| format!("harness: symlink to /dev/full: {e}"))?;
+    let probe = std::fs::OpenOptions::new().write(true).open(&tmp).and_then(|mut f| f.write_all(b"x"));
+    if probe.is_ok() { let _ = std::fs::remove_file(&tmp); return Err("harness: a write through the temp sibling did not fail".into()); }
+    let r = save_file(&s_new, fmt, &path);
+    let _ = std::fs::remove_file(&tmp);
+    let mut bad: Vec<String> = vec![];
+    match &r {
+        Ok(()) => bad.push("save returned Ok although every write to its temp file failed with ENOSPC".into()),
+        Err(e) if e.contains("panicked") => bad.push(e.clone()),
+        Err(_) => {},
+    }
+    match std::fs::symlink_metadata(&path) {
+        Ok(m) if m.file_type().is_file() => match (&old_view, old) {
+            (Some(ov), Some(oc)) => match loaded_view(fmt, &path, oc) {
+                Ok(v) => if let Err(e) = verdict(diff(ov, &v, false)) { bad.push(format!("the file no longer loads as S_old: {e}")); },
+                Err(e) => bad.push(format!("the file no longer loads: {e}")),
+            },
+            _ => { bad.push(format!("a file of {} byte(s) appeared at the target path although nothing could be written", m.len())); let _ = std::fs::remove_file(&path); },
+        },
+        Ok(m) => {
+            bad.push(format!("the target path was replaced by a non-regular file ({}): the previous snapshot is gone", if m.file_type().is_symlink() { "the symlink that stood for the temp file" } else { "not a file" }));
+            let _ = std::fs::remove_file(&path);
+        },
+        Err(_) => if old.is_some() { bad.push("the previous snapshot file vanished".into()); },
+    }
+    if bad.is_empty() { Ok(()) } else { Err(format!("save = {}; {}", match &r { Ok(()) => "Ok".to_string(), Err(e) => e.clone() }, bad.join(" | "))) }
+}
+
+// ---------------------------------------------------------------- snapshot, mutate, snapshot again
+
+fn row3() -> Vec<ColumnValue> {
+    vec![ColumnValue::Int(3), ColumnValue::Float(2.5), ColumnValue::String("third".into()), ColumnValue::Bool(true), ColumnValue::Null, ColumnValue::Json("[]".into())]
+}
+
+/// `second` is applied on top of `first`: its entries / emb overwrite keys in place; `second.table` adds a row to table "t".
+fn resnapshot_case(first: &Content, del: &[String], second: &Content, fmt: Fmt, dir: &Path) -> Result<(), String> {
+    let s = TensorStore::new();
+    populate(s.router(), Some(&s), first).map_err(|e| format!("populate: {e}"))?;
+    let path = dir.join("re.snap");
+    let _ = std::fs::remove_file(&path);
+    // first snapshot (discarded)
+    match fmt {
+        Fmt::BytesStore => { guard("snapshot_bytes", || s.snapshot_bytes().map_err(|e| format!("first snapshot_bytes = Err({e})")))?; },
+        Fmt::BytesRouter => { guard("to_bytes", || s.router().to_bytes().map_err(|e| format!("first to_bytes = Err({e})")))?; },
+        _ => save_file(&s, fmt, &path).map_err(|e| format!("first save: {e}"))?,
+    }
+    // mutate in place
+    for k in del { s.router().delete(k).map_err(|e| format!("harness: delete({k:?}) = Err({e})"))?; }
+    populate(s.router(), Some(&s), &Content { entries: second.entries.clone(), emb: second.emb, ..Default::default() }).map_err(|e| format!("populate (second): {e}"))?;
+    if second.table { s.router().relations.insert("t", row3()).map_err(|e| format!("harness: insert third row = Err({e})"))?; }
+    let c = Content { blob: first.blob, ..Default::default() }; // `c` only tells view() which blob chunks to look up
+    let cur = view(s.router(), Some(&s), &c);
+    // second snapshot + load
+    let got = match fmt {
+        Fmt::BytesStore => {
+            let bytes = guard("snapshot_bytes", || s.snapshot_bytes().map_err(|e| format!("snapshot_bytes = Err({e})")))?;
+            let fresh = TensorStore::new();
+            guard("restore_from_bytes", || fresh.restore_from_bytes(&bytes).map_err(|e| format!("restore_from_bytes = Err({e})")))?;
+            view(fresh.router(), Some(&fresh), &c)
+        },
+        Fmt::BytesRouter => {
+            let bytes = guard("to_bytes", || s.router().to_bytes().map_err(|e| format!("to_bytes = Err({e})")))?;
+            let r2 = guard("from_bytes", || SlabRouter::from_bytes(&bytes).map_err(|e| format!("from_bytes = Err({e})")))?;
+            view(&r2, None, &c)
+        },
+        _ => {
+            save_file(&s, fmt, &path).map_err(|e| format!("second save: {e}"))?;
+            if path.with_extension("tmp").exists() { return Err("temp sibling left behind after save".into()); }
+            loaded_view(fmt, &path, &c)?
+        },
+    };
+    verdict(diff(&cur, &got, fmt == Fmt::Quantised)).map_err(|e| format!("loaded second snapshot differs from the current store: {e}"))
+}
+
+/// (first, deleted keys, second) for one format; everything stays outside the known-finding classes of that format
+fn resnapshot_contents(fmt: Fmt, tier: Tier) -> Vec<(Content, Vec<String>, Content)> {
+    let quant = fmt == Fmt::Quantised;
+    let d = |k: &[&str]| k.iter().map(|x| (*x).to_string()).collect::<Vec<String>>();
+    let mut out = vec![];
+    // every class at once; one plain and one slab-backed key deleted, new ones inserted
+    out.push((Content { emb: 1, ..Content::kv(&[("k", "f", "str_ascii"), ("user:1", "n", "int_min"), ("user:1", "v", "vec_dense"), ("node:7", "p", "ptrs"), ("emb:e1", "_embedding", "vec_dense"),
+                                                ("emb:e2", "vector", "vec_small8"), ("gone", "f", "int_0"), ("emb:gone", "_embedding", "vec_ramp384"), ("emb:keep", "_embedding", "vec_half384")]) },
+              d(&["gone", "emb:gone"]),
+              Content { emb: 5, ..Content::kv(&[("k", "f", "str_uni"), ("user:1", "n", "int_max"), ("user:1", "v", "vec_sorted_ints"), ("node:7", "p", "ptr"), ("emb:e1", "_embedding", "vec_small4b"),
+                                                ("emb:e2", "vector", "vec_dense"), ("new", "f", "f_nan"), ("emb:new", "_embedding", "vec_ramp384b")]) }));
+    // slab embedding classes: ramp <-> exact half-zero, falling ramp
+    for (a, b) in [(1u8, 2u8), (2, 1), (1, 5), (2, 5)] { out.push((Content { emb: a, ..Default::default() }, vec![], Content { emb: b, ..Default::default() })); }
+    // same, next to key/value data that is overwritten too, and with the slab entry deleted and re-inserted
+    out.push((Content { emb: 2, ..Content::kv(&[("emb:e1", "vector", "vec_ramp384"), ("emb:e1", "title", "str_ascii"), ("k", "f", "int_0")]) }, d(&["emb:doc"]),
+              Content { emb: 1, ..Content::kv(&[("emb:e1", "vector", "vec_ramp384b"), ("k", "f", "vec_small8")]) }));
+    // small (4..8-dim) embedding values under emb:* keys overwritten by small ones
+    out.push((Content::kv(&[("emb:e1", "_embedding", "vec_dense"), ("emb:e2", "_embedding", "vec_small8"), ("emb:e3", "vector", "vec_small4b")]), vec![],
+              Content::kv(&[("emb:e1", "_embedding", "vec_small4b"), ("emb:e2", "_embedding", "vec_zeros"), ("emb:e3", "vector", "vec_small8")])));
+    // dimension changes under the same emb:* key, both directions
+    out.push((Content::kv(&[("emb:e1", "_embedding", "vec_dense")]), vec![], Content::kv(&[("emb:e1", "_embedding", "vec_ramp384")])));
+    out.push((Content { emb: 1, ..Default::default() }, vec![], Content::kv(&[("emb:doc", "_embedding", "vec_small4b"), ("emb:doc", "title", "str_uni")])));
+    // relational rows next to overwritten keys (the quantising format does not carry tables: known finding)
+    if !quant {
+        out.push((Content { table: true, emb: 1, ..Content::kv(&[("k", "f", "str_ascii"), ("table:x:1", "f", "int_0")]) }, d(&["k"]),
+                  Content { table: true, emb: 2, ..Content::kv(&[("table:x:1", "f", "str_uni"), ("k2", "f", "int_m1")]) }));
+    }
+    // rolling 5-entry stores: every key class, every value kind replaced by another kind
+    for w in 0..VALS.len() {
+        if tier == Tier::Quick && w % 3 != 0 { continue; }
+        let pick = |n: usize| { let v = VALS[n % VALS.len()]; if quant && v.starts_with("bytes_") { "int_0" } else { v } };
+        let a: Vec<(&str, &str, &str)> = (0..5).map(|i| (KEYS[(w + i) % KEYS.len()], "f", pick(w + i * 7))).collect();
+        let b: Vec<(&str, &str, &str)> = (0..5).map(|i| (KEYS[(w + i) % KEYS.len()], "f", pick(w + i * 7 + 11))).collect();
+        let gone = KEYS[(w + 4) % KEYS.len()];
+        out.push((Content::kv(&a), d(&[gone]), Content::kv(&b[..4])));
+    }
+    out
+}
+
+/// router-level slab of a small dimension: (first, second) vectors of emb:doc; emb:gone is deleted, emb:new re-uses its slot
+fn small_pairs() -> Vec<(Vec<f32>, Vec<f32>)> {
+    vec![(vec![1.0, 0.5, -1.0, 0.25], vec![0.0, 0.0, 0.0, 1.0]), (vec![0.0, 0.0, 0.0, 1.0], vec![1.0, 0.5, -1.0, 0.25]), (vec![1.0, 0.5, -1.0, 0.25], vec![0.0; 4]),
+         (vec![0.0; 4], vec![3.4e38, -3.4e38, 0.0, 0.0]), (vec![0.25, 2.0, -1.0, 8.0], vec![8.0, -1.0, 2.0, 0.25]),
+         (vec![0.0, 0.0, 0.0, 1.0, 2.0, 3.0, -4.0, 0.5], vec![0.0, 0.0, 0.0, 0.0, 0.0, 0.0, -4.0, 0.5]), (vec![0.0, 0.0, 0.0, 0.0, 0.0, 0.0, -4.0, 0.5], vec![1.0, 2.0, 3.0, 4.0, 5.0, 6.0, 7.0, 8.0])]
+}
+
+fn resnapshot_small(e1: &[f32], e2: &[f32], how: &str, dir: &Path) -> Result<(), String> {
+    if e1.len() != e2.len() || e1.is_empty() { return Err("malformed case".into()); }
+    let cfg = SlabRouterConfig { embedding_dim: e1.len(), ..SlabRouterConfig::default() };
+    let r = SlabRouter::with_config(&cfg);
+    let put = |k: &str, e: &[f32], t: &str| {
+        let mut d = TensorData::new();
+        d.set("_embedding", TensorValue::Vector(e.to_vec()));
+        d.set("title", TensorValue::Scalar(ScalarValue::String(t.into())));
+        r.put(k, d).map_err(|x| format!("put({k}) = Err({x})"))
+    };
+    let rev = |e: &[f32]| e.iter().rev().copied().collect::<Vec<f32>>();
+    put("emb:doc", e1, "doc")?;
+    put("emb:gone", &rev(e1), "gone")?;
+    put("emb:keep", e2, "keep")?;
+    let p = dir.join("re_small.snap");
+    let _ = std::fs::remove_file(&p);
+    let snap = |what: &str| -> Result<Option<Vec<u8>>, String> {
+        guard(what, || match how {
+            "bytes" => r.to_bytes().map(Some).map_err(|x| format!("{what} to_bytes = Err({x})")),
+            "file_raw" => tensor_store::snapshot::save_v3_uncompressed(&r, &p).map(|()| None).map_err(|x| format!("{what} save = Err({x})")),
+            _ => r.save_to_file(&p).map(|()| None).map_err(|x| format!("{what} save = Err({x})")),
+        })
+    };
+    snap("first")?;
+    put("emb:doc", e2, "doc v2")?;
+    r.delete("emb:gone").map_err(|x| format!("harness: delete = Err({x})"))?;
+    put("emb:new", &rev(e2), "new")?;
+    let c = Content::default();
+    let cur = view(&r, None, &c);
+    if !cur.contains_key("embslab/\"emb:new\"") || cur.contains_key("embslab/\"emb:gone\"") { return Err("harness: slab does not hold the expected keys".into()); }
+    let bytes = snap("second")?;
+    let r2 = guard("load", || match &bytes {
+        Some(b) => SlabRouter::from_bytes(b).map_err(|x| format!("from_bytes = Err({x})")),
+        None => SlabRouter::load_from_file(&p).map_err(|x| format!("load = Err({x})")),
+    })?;
+    verdict(diff(&cur, &view(&r2, None, &c), false)).map_err(|e| format!("loaded second snapshot differs from the current router: {e}"))
 }
 
 // ---------------------------------------------------------------- domain
@@ -548,11 +758,11 @@ pub fn run(tier: Tier, seed: u64) -> Report {
     let th = tier == Tier::Thorough;
     let cs = contents(tier);
     let mut rep = Report::new("c07_snapshot",
-        &format!("{} store contents: empty; every one of {} value kinds (null, bools, int extremes, f64 NaN/+-inf/-0/denormal, strings incl. unicode/NUL/300 chars, bytes, dense/special/300-dim vectors, sparse vectors, pointers) alone under a plain key; 8 kinds under each of 9 key classes (plain, user:, emb:, node:, edge:, table:, _blob:, empty, unicode); field names ids/_ids/vector/_embedding; rolling 5-entry stores; one entity with all kinds; relational table (6 column types, 2 rows, NULLs); engine-written table/2 nodes/1 edge/1 embedding; 384-dim slab embeddings (ramp, half-zero, half-zero+1e-7, pseudo-random); graph-tensor edge; blob chunks; all combined - each through 5 formats (bytes via TensorStore, bytes via SlabRouter, file zstd, file raw, quantising file with default config); 8 four-dim slab embeddings x 3 formats; crash states: {} old/new pair(s) x 3 file formats x (temp sibling cut at EVERY byte offset, renamed, save over a stale temp at 3 offsets, main file cut at EVERY byte offset){}",
-                 cs.len(), VALS.len(), atomic_pairs(tier).len(), if th { "; plus 300 seeded random stores of <= 6 entries and one 10^4-entry store (not exhaustive)" } else { "" }),
+        &format!("{} store contents: empty; every one of {} value kinds (null, bools, int extremes, f64 NaN/+-inf/-0/denormal, strings incl. unicode/NUL/300 chars, bytes, dense/special/300-dim vectors, sparse vectors, pointers) alone under a plain key; 8 kinds under each of 9 key classes (plain, user:, emb:, node:, edge:, table:, _blob:, empty, unicode); field names ids/_ids/vector/_embedding; rolling 5-entry stores; one entity with all kinds; relational table (6 column types, 2 rows, NULLs); engine-written table/2 nodes/1 edge/1 embedding; 384-dim slab embeddings (ramp, half-zero, half-zero+1e-7, pseudo-random); graph-tensor edge; blob chunks; all combined - each through 5 formats (bytes via TensorStore, bytes via SlabRouter, file zstd, file raw, quantising file with default config); 8 four-dim slab embeddings x 3 formats; crash states: {} old/new pair(s) x 3 file formats x (temp sibling cut at EVERY byte offset, renamed, save over a stale temp at 3 offsets, main file cut at EVERY byte offset); failing saves: the temp sibling is a symlink to /dev/full, (old,new) = the crash pairs in both orders, old + empty new, no old file, x 4 file formats (zstd, raw, quantising, SlabRouter::save_to_file); resnapshot: {} populate / snapshot / overwrite-delete-insert / snapshot / load scripts per format x 6 formats (5 above + SlabRouter::save_to_file) and {} vector pairs x 3 formats on a router whose slab dimension is 4 / 8{}",
+                 cs.len(), VALS.len(), atomic_pairs(tier).len(), resnapshot_contents(Fmt::FileZstd, tier).len(), small_pairs().len(), if th { "; plus 300 seeded random stores of <= 6 entries and one 10^4-entry store (not exhaustive)" } else { "" }),
         true,
         &["TensorStore::snapshot_bytes", "TensorStore::restore_from_bytes", "SlabRouter::to_bytes", "SlabRouter::from_bytes", "TensorStore::save_snapshot", "TensorStore::load_snapshot",
-          "snapshot::save_v3_uncompressed", "snapshot::load", "TensorStore::save_snapshot_compressed", "TensorStore::load_snapshot_compressed", "SlabRouter::save_to_file", "SlabRouter::load_from_file"]);
+          "snapshot::save_v3_uncompressed", "snapshot::load", "SlabRouter::put", "SlabRouter::delete", "TensorStore::save_snapshot_compressed", "TensorStore::load_snapshot_compressed", "SlabRouter::save_to_file", "SlabRouter::load_from_file"]);
     rep.declare(OB_BYTES, "TensorStore::snapshot_bytes/restore_from_bytes, SlabRouter::to_bytes/from_bytes");
     rep.declare(OB_BYTES_SLABS, "same, stores with graph-tensor / blob-log data");
     rep.declare(OB_FILE, "TensorStore::save_snapshot/load_snapshot, snapshot::save_v3_uncompressed");
@@ -562,6 +772,8 @@ pub fn run(tier: Tier, seed: u64) -> Report {
     rep.declare(OB_THRESH, "EmbeddingSlab::snapshot/restore via bytes and files: dimension 4 (< TT_MIN_DIMENSION, router level) and 384 (>= it, TensorStore level)");
     rep.declare(OB_ATOMIC, "snapshot::load / load_snapshot_compressed on crash pre-states");
     rep.declare(OB_TRUNC, "snapshot::load / load_snapshot_compressed on a truncated file");
+    rep.declare(OB_SAVE_ERR, "save_snapshot / save_v3_uncompressed / save_snapshot_compressed / SlabRouter::save_to_file when every write to the temp file fails");
+    rep.declare(OB_RESNAP, "every snapshot format, second snapshot of a store that was overwritten in place after the first");
     let dir = tmpdir("c07_snapshot");
 
     let mut failed_kinds: BTreeMap<&'static str, Vec<String>> = BTreeMap::new();
@@ -611,6 +823,46 @@ pub fn run(tier: Tier, seed: u64) -> Report {
         }
     }
 
+    // failing saves (ENOSPC on the temp sibling)
+    let mut err_pairs: Vec<(Option<Content>, Content)> = vec![];
+    for (old, new) in atomic_pairs(tier) {
+        err_pairs.push((Some(old.clone()), new.clone()));
+        err_pairs.push((Some(new.clone()), old.clone()));
+    }
+    if let Some((old, new)) = atomic_pairs(tier).into_iter().next() {
+        err_pairs.push((Some(old), Content::default()));
+        err_pairs.push((None, new));
+    }
+    for (old, new) in &err_pairs {
+        for fmt in FILE_FMTS {
+            let r = save_error_case(old.as_ref(), new, fmt, &dir);
+            rep.eval(true);
+            rep.check(OB_SAVE_ERR, r.is_ok(), &|| json!({"kind": "save_error", "format": fmt.name(), "old": old.as_ref().map(Content::to_json), "new": new.to_json()}), &|| r.clone().err().unwrap_or_default());
+        }
+    }
+    rep.sample(json!({"kind": "save_error", "format": "file_zstd", "old": err_pairs[0].0.as_ref().map(Content::to_json), "new": err_pairs[0].1.to_json()}));
+
+    // snapshot, overwrite in place, snapshot again
+    for fmt in ALL_FMTS {
+        for (first, del, second) in resnapshot_contents(fmt, tier) {
+            let r = resnapshot_case(&first, &del, &second, fmt, &dir);
+            rep.eval(true);
+            rep.check(OB_RESNAP, r.is_ok(), &|| json!({"kind": "resnapshot", "format": fmt.name(), "first": first.to_json(), "delete": del, "second": second.to_json()}), &|| r.clone().err().unwrap_or_default());
+        }
+    }
+    for (e1, e2) in small_pairs() {
+        for how in ["bytes", "file_zstd", "file_raw"] {
+            let r = resnapshot_small(&e1, &e2, how, &dir);
+            rep.eval(true);
+            rep.check(OB_RESNAP, r.is_ok(), &|| json!({"kind": "resnapshot_small", "how": how, "first_bits": e1.iter().map(|x| x.to_bits()).collect::<Vec<_>>(), "second_bits": e2.iter().map(|x| x.to_bits()).collect::<Vec<_>>()}),
+                      &|| r.clone().err().unwrap_or_default());
+        }
+    }
+    {
+        let (first, del, second) = resnapshot_contents(Fmt::FileZstd, tier).swap_remove(0);
+        rep.sample(json!({"kind": "resnapshot", "format": "file_zstd", "first": first.to_json(), "delete": del, "second": second.to_json()}));
+    }
+
     if th {
         let mut rng = Rng(seed ^ 0xC07);
         for _ in 0..300 {
@@ -647,6 +899,18 @@ pub fn replay(ob: &str, case: &Value) -> Result<String, String> {
             let (old, new) = (Content::parse(&case["old"]), Content::parse(&case["new"]));
             let fmt = Fmt::parse(case["format"].as_str().unwrap_or(""));
             images(&old, &new, fmt, &dir).and_then(|im| atomic_case(&im, &old, &new, fmt, case["state"].as_str().unwrap_or(""), case["cut"].as_u64().unwrap_or(0) as usize, &dir))
+        },
+        "save_error" => {
+            let old = if case["old"].is_null() { None } else { Some(Content::parse(&case["old"])) };
+            save_error_case(old.as_ref(), &Content::parse(&case["new"]), Fmt::parse(case["format"].as_str().unwrap_or("")), &dir)
+        },
+        "resnapshot" => {
+            let del: Vec<String> = case["delete"].as_array().map(|a| a.iter().filter_map(|x| x.as_str().map(str::to_string)).collect()).unwrap_or_default();
+            resnapshot_case(&Content::parse(&case["first"]), &del, &Content::parse(&case["second"]), Fmt::parse(case["format"].as_str().unwrap_or("")), &dir)
+        },
+        "resnapshot_small" => {
+            let bits = |v: &Value| -> Vec<f32> { v.as_array().map(|a| a.iter().map(|x| f32::from_bits(x.as_u64().unwrap_or(0) as u32)).collect()).unwrap_or_default() };
+            resnapshot_small(&bits(&case["first_bits"]), &bits(&case["second_bits"]), case["how"].as_str().unwrap_or("bytes"), &dir)
         },
         "roundtrip_big" => {
             let big: Vec<(String, String, String)> = (0..10_000).map(|i| (format!("{}{i}", ["k", "user:", "emb:", "node:"][i % 4]), "f".to_string(), VALS[i % VALS.len()].to_string())).collect();
